@@ -5,6 +5,7 @@ import (
 	"go/token"
 	"go/types"
 	"sort"
+	"strings"
 
 	"golang.org/x/tools/go/ssa"
 )
@@ -81,6 +82,19 @@ func (fr *Frame) loopWrites(h *ssa.BasicBlock) (keys map[string]bool, open map[s
 					keys[k] = true
 					if op && !inPlaceFresh {
 						open[k] = true
+					}
+				}
+				// decoders fill the value their last argument points to
+				if callee := x.Common().StaticCallee(); callee != nil && (strings.HasSuffix(extName(callee), "cbor/v2.Decoder).Decode") || strings.HasSuffix(extName(callee), "cbor/v2.Unmarshal")) {
+					args := x.Common().Args
+					if mi, ok := args[len(args)-1].(*ssa.MakeInterface); ok {
+						if pt, ok := mi.X.Type().Underlying().(*types.Pointer); ok {
+							k := u.regT(pt.Elem())
+							keys[k] = true
+							if al, isAlloc := mi.X.(*ssa.Alloc); !isAlloc || !body[al.Block()] {
+								open[k] = true
+							}
+						}
 					}
 				}
 				for g := range ms.ghosts {
